@@ -43,5 +43,21 @@ IShapeOK(c, o) ==
   ELSE IF (IF c.wide THEN o.nx ELSE o.ny) # c.nlong THEN "longest_side_does_not_have_the_requested_pixels"
   ELSE IF (IF c.wide THEN o.ny ELSE o.nx) # Max2(1, CeilDiv(c.other, c.k)) THEN "other_side_does_not_cover"
   ELSE "ok"
+(* ---- regions given in ANOTHER, really different CRS (from_geopolygon(poly, crs=...)): the projection is an environment table.
+   e.pos = vertices of the region as the projection library maps them, in pixel coordinates of the RESULT, 1/1024 pixel;
+   e.o = [ny, nx, edge (offset of pixel edges from the CRS origin, 1/1024 px), axis_aligned, res_ok].
+   Contract: covers every vertex (up to tol), less than a pixel of excess per side, aligned as requested (tight: starts at the region). *)
+RegionNear(v, want) == LET d == (v - want) % 1024 IN d <= 2 \/ d >= 1022
+RegionOK(c, e) ==
+  LET o == e.o tolp == (1024 * c.tol[1]) \div c.tol[2] + 2
+      xs == {e.pos[i][1] : i \in DOMAIN e.pos} ys == {e.pos[i][2] : i \in DOMAIN e.pos}
+      an == CASE c.anchor = "edge" -> 0 [] c.anchor = "center" -> 512 [] OTHER -> -1 IN
+  IF ~o.axis_aligned \/ ~o.res_ok THEN "pixel_size_or_orientation_not_as_requested"
+  ELSE IF e.pos = <<>> THEN "no_vertex_table"
+  ELSE IF SetMin(xs) < -tolp \/ SetMax(xs) > o.nx * 1024 + tolp \/ SetMin(ys) < -tolp \/ SetMax(ys) > o.ny * 1024 + tolp THEN "region_vertex_not_covered"
+  ELSE IF SetMin(xs) >= 1024 + 2 \/ SetMax(xs) <= (o.nx - 1) * 1024 - 2 \/ SetMin(ys) >= 1024 + 2 \/ SetMax(ys) <= (o.ny - 1) * 1024 - 2 THEN "a_pixel_or_more_larger_than_necessary"
+  ELSE IF c.tight /\ ~(Abs(SetMin(xs)) <= 2 /\ Abs(SetMin(ys)) <= 2) THEN "tight_grid_does_not_start_at_the_region"
+  ELSE IF ~c.tight /\ an >= 0 /\ ~(RegionNear(o.edge[1], an) /\ RegionNear(o.edge[2], an)) THEN "pixel_edges_not_aligned_as_requested"
+  ELSE "ok"
 ModelMeetsContract(c) == CASE c.mode = "res" -> ResOK(c, ResModel(c)) = "ok" [] c.mode = "shape" -> ShapeOK(c, ShapeModel(c)) = "ok" [] OTHER -> TRUE
 =============================================================================
